@@ -189,12 +189,15 @@ func runPauseCase(w *cw.Writer, pc pauseCase, kind string) error {
 	if L == nil && R == nil {
 		// the responder holds the root; the requestor's blocks are among the responder's (outside C02-F1/F2)
 		pR, pL := r.Range(3, 6), r.Range(0, 4)
+		leafLocal := r.P(2, 3) // also: leaves the requestor holds and the responder lacks (no subtree below them: outside C02-F1)
 		for i := 0; i < n; i++ {
 			if i == 0 || r.Intn(6) < pR {
 				R = append(R, i)
 				if r.Intn(6) < pL {
 					L = append(L, i)
 				}
+			} else if leafLocal && len(d.Blocks[i].Kids) == 0 && r.P(3, 4) {
+				L = append(L, i)
 			}
 		}
 	}
@@ -248,6 +251,12 @@ func runPauseCase(w *cw.Writer, pc pauseCase, kind string) error {
 	}
 	if ri.remoteMissing > 0 {
 		tags = append(tags, "remote_missing_links")
+	}
+	for _, i := range L {
+		if !inR(i) {
+			tags = append(tags, "leaf_held_only_by_requestor")
+			break
+		}
 	}
 	pc.Kind = "pause"
 	pc.Block = block
